@@ -56,7 +56,7 @@ RAW_TYPES = {"bool": bool, "int": int, "float": float, "complex": complex, "str"
 def _leaf() -> st.SearchStrategy:
     only_bytes = V.bytess().map(lambda r: {"k": "bytes", "hex": r["hex"]})
     return V.choice(V.ints(), V.ints(), V.floats(), V.floats(), V.floats(), V.edge_numbers_of("float"), V.bools(), V.complexes(),
-                    V.complexes(), V.strs(8), V.strs(8), only_bytes)
+                    V.edge_numbers_of("complex"), V.strs(8), V.strs(8), only_bytes)
 
 
 def _hashable_leaf() -> st.SearchStrategy:
@@ -222,7 +222,7 @@ def _evaluate_value(case: dict[str, Any], out: Outcome) -> None:
         return
     try:
         got = eval(compile(code, "<literal>", "eval"), _namespace())  # noqa: S307
-    except SyntaxError as exc:
+    except (SyntaxError, ValueError) as exc:  # ValueError: NUL bytes / lone surrogates in the source
         out.fail(f"value|{cat}|invalid-syntax", f"value={value!r} code={code!r}: {exc}")
         return
     except Exception as exc:  # noqa: BLE001
@@ -309,7 +309,7 @@ def _evaluate_gen(case: dict[str, Any], out: Outcome) -> None:
                 return
             try:
                 got = eval(compile(code, "<literal>", "eval"), _namespace(names))  # noqa: S307
-            except SyntaxError as exc:
+            except (SyntaxError, ValueError) as exc:  # ValueError: NUL bytes / lone surrogates in the source
                 out.fail(f"{op}|{raw_name}|invalid-syntax", f"step {step} code={code!r}: {exc}")
                 return
             except Exception as exc:  # noqa: BLE001
